@@ -84,18 +84,35 @@ func installModels(e *Engine) {
 	e.intercept["strings.Join"] = func(e *Engine, fr *Frame, c *Ctx, a []Value, cc *ssa.CallCommon) (Value, bool) {
 		sv := a[0].(SliceV)
 		sep := a[1].(StrV)
-		if len(sv.Alts) != 1 || !sv.Alts[0].Len.IsConst() {
-			unsup("strings.Join model: slice of symbolic length (%d alts, len %v)", len(sv.Alts), sv.Alts[0].Len.ref())
+		var et types.Type = types.Typ[types.String]
+		el, ln := e.sliceView(c, sv, et)
+		if ln.IsConst() {
+			n := int(ln.val)
+			if n == 0 {
+				return StrC(""), true
+			}
+			res := el[0].(StrV)
+			for i := 1; i < n; i++ {
+				res = strConcat(strConcat(res, sep), el[i].(StrV))
+			}
+			return res, true
 		}
-		sa := sv.Alts[0]
-		n := int(sa.Len.val)
-		if n == 0 {
-			return StrC(""), true
+		// symbolic length: case split over the possible lengths
+		var res Value = StrC("")
+		acc := StrC("")
+		lo := 0
+		if ln.hasIv {
+			lo = int(ln.lo)
 		}
-		arr := e.arr(c, sa.Obj)
-		res := arr.E[sa.Off].(StrV)
-		for i := 1; i < n; i++ {
-			res = strConcat(strConcat(res, sep), arr.E[sa.Off+i].(StrV))
+		for n := 1; n <= len(el); n++ {
+			if n == 1 {
+				acc = el[0].(StrV)
+			} else {
+				acc = strConcat(strConcat(acc, sep), el[n-1].(StrV))
+			}
+			if n >= lo {
+				res = mergeV(Eq(ln, BV(64, uint64(n))), acc, res)
+			}
 		}
 		return res, true
 	}
@@ -202,11 +219,12 @@ func installModels(e *Engine) {
 			return TupleV{[]Value{IntV{BV(64, uint64(int64(n)))}, nilIface()}}, true
 		}
 		f := fl(a[0].(StrV))
+		// digits only (a leading sign is outside the model: asserted below); numbers of more than 6 digits are treated
+		// as invalid (they designate no entry of the bounded documents either way)
+		valid := And(Not(Eq(f.Len, BV(64, 0))), Ule(f.Len, BV(64, 6)))
 		if len(f.B) > 6 {
-			unsup("strconv.Atoi model: symbolic string longer than 6 bytes")
+			f.B = f.B[:6]
 		}
-		// digits only (a leading sign is outside the model: asserted below)
-		valid := Not(Eq(f.Len, BV(64, 0)))
 		var val *Term = BV(64, 0)
 		for i, b := range f.B {
 			live := Ult(BV(64, uint64(i)), f.Len)
